@@ -11,7 +11,7 @@ CLAIMED = {
          "Static: decides the data clauses exhaustively (27 code tables x 2 modules against each other and the NCBI table; 4 complement tables closed; codon order TCAG) and, for the option clauses, that every translation entry point reads its options, that sibling entry points trim terminal stops under the same condition on the full truth table, that collection wrappers forward the options and give the requested genetic code to every entry point they call, that every complement implementation goes through the complement table, that index arrays are typed by the alphabet size, that no translation entry point reads the raw (uncomplemented) view, that no cache of the moltype / code / alphabet classes is a shared class attribute, that the new translate() chooses its start/truncation slices by strand (known finding), and that the byte converter fixes the element width of index arrays. The byte/str translation code itself is not decided.",
          "Trusts python ast, the constant folder, the embedded NCBI deviations table and that k-mer alphabets enumerate the product of monomers in order."),
  "C17": ("constant propagation through the WHERE builder + exhaustive enumeration of order types; SQL column-set agreement; constant-offset domain along def-use chains",
-         "Static: the interval predicate text the code assembles is extracted by constant propagation, parsed, and compared with half-open overlap / containment on every weak ordering of the integers involved (exhaustive), for every kind of accompanying condition (also decides that the assembled WHERE is well formed); every SQL builder takes its WHERE from that one function with the flags forwarded; attribute conditions use the exact = operator; spans are never written without start/stop; GFF and GenBank coordinates reach the store with net offsets (-1, 0); the counter of made-up record names is threaded through the chunked GFF reader and across files; identifiers already stored leave a block before it is added; the GFF ID/Parent patterns are anchored and case-sensitive; the table loop does not edit its forwarded conditions in place; raw-connection inserts are committed; union() is not built on the receiver's connection. Equality with a linear scan over arbitrary record sets, and union/copy/pickle multiset preservation, are not decided.",
+         "Static: the interval predicate text the code assembles is extracted by constant propagation, parsed, and compared with half-open overlap / containment on every weak ordering of the integers involved (exhaustive), for every kind of accompanying condition (also decides that the assembled WHERE is well formed); every SQL builder takes its WHERE from that one function with the flags forwarded; attribute conditions use the exact = operator; spans are never written without start/stop; GFF and GenBank coordinates reach the store with net offsets (-1, 0); the counter of made-up record names is threaded through the chunked GFF reader and across files; identifiers already stored leave a block before it is added; the GFF ID/Parent patterns are anchored and case-sensitive; the table loop does not edit its forwarded conditions in place; raw-connection inserts are committed; union() is not built on the receiver's connection; from_dict builds the receiving db empty of the serialised source; all GenBank records of a file are loaded; the per-table loops of the aggregate methods visit every table. Equality with a linear scan over arbitrary record sets, and union/copy/pickle multiset preservation, are not decided.",
          "Trusts python ast, the mini constant propagator (anything it cannot fold is reported unresolved), SQLite integer comparison semantics; features and windows are assumed non-empty."),
  "C19": ("typestate over the extracted file-system effect sequence of the commit function; post-dominance with exceptional edges on a statement CFG; who-may-open rule; dominance of the resume skip",
          "Static: every kill point of atomic_write's commit is a prefix of its extracted effect sequence, and after each prefix the destination is old or new (never absent); no writer's exception handler deletes the destination; every atomic_write is released on all paths including exceptional ones, and __exit__ commits only on success and cleans up on failure; writers never open the destination directly; the commit is a rename/replace (shutil.move and copies are not atomic); the temporary directory is removed on every exceptional path out of the close and the commit too; apply_to's skip of completed inputs dominates scheduling and rests on an exact store-membership test and on an overwrite check made on the caller's identifier. Not decided: behaviour of the OS, the zip commit, that a resumed run ends with an identical store.",
@@ -44,13 +44,13 @@ CLAIMED = {
          "Static: the translation methods present in both implementations are identical; get_features forwards its flags unchanged and converts/swaps the window ends as the database predicate (decided under C17) expects; no constructor call passes a coordinate-carrying view together with a non-zero annotation_offset, and offsets of sequences rebuilt from strings include the receiver's own offset; make_feature classifies and clips every span against [0, len) correctly on all 18 weak orderings of (start, end, 0, len) (symbolic evaluation of the loop body); the database predicate and the stored extremes (R17.1, R17.3) are re-checked here; a windowed db subset asks for partial matches; a sequence that receives the receiver's annotation db was built with the receiver's coordinates (10 known findings); a copy keeps its annotations whatever the strand; stores to properties have setters. That a feature denotes the same residues after any history is not decided.",
          "Trusts python ast, the summaries of SeqView/SeqDataView.copy, that slices of self._seq keep their coordinates."),
  "C09": ("region/effect abstract interpretation (receiver purity and result sharing) with interprocedural summaries to a two-phase least fix-point over the tree class family; regex character-class comparison of the Newick writer and tokeniser",
-         "Static: none of 36 operations documented as returning a new tree or a value (resolved for TreeNode and PhyloNode) contains a store, container mutation, property-setter effect or child adoption whose target lies exactly in the receiver's region, through calls resolved inside the class; the new trees hold no mutable dict/list/node of the receiver; every character the Newick tokeniser treats as structure makes the writer quote the name, quotes are doubled/un-doubled and blank/underscore munging is symmetric, also between the JSON writer and reader; generated node names are re-checked for uniqueness; unrooted() re-attaches the removed edge length on the kept side and leaves promoted nodes' lengths alone; no node is re-found by its own name; the midpoint climb is bounded by an ancestor test; subsets() recomputes its clade sets. Topology and path-length invariance in general are not decided.",
+         "Static: none of 36 operations documented as returning a new tree or a value (resolved for TreeNode and PhyloNode) contains a store, container mutation, property-setter effect or child adoption whose target lies exactly in the receiver's region, through calls resolved inside the class; the new trees hold no mutable dict/list/node of the receiver; every character the Newick tokeniser treats as structure makes the writer quote the name, quotes are doubled/un-doubled and blank/underscore munging is symmetric, also between the JSON writer and reader; generated node names are re-checked for uniqueness; unrooted() re-attaches the removed edge length on the kept side and leaves promoted nodes' lengths alone; no node is re-found by its own name; the midpoint climb is bounded by an ancestor test; subsets() recomputes its clade sets; the tokeniser un-munges underscores in unquoted labels only. Topology and path-length invariance in general are not decided.",
          "Trusts python ast, the effect model of containers/numpy, the tree-specific effect facts (adoption by constructors, parent setter derived from source), under-approximate through unresolved calls and mixed regions."),
  "C03": ("region/effect abstract interpretation (receiver purity) over the alignment class family, MRO-table signature parity of the sibling classes, constructor-call completeness for history state, paired-component dependency rule",
          "Static: none of ~55 listed operations (resolved for ArrayAlignment, Alignment, SequenceCollection, and for Aligned) mutates its receiver; the two alignment classes take the same parameters with the same defaults for every shared public operation; every functional rebuild of SeqsData / IndelMap carries its history state; an Aligned's map and data are always recomputed together; rows of two collections are never paired by position; sibling classes use the same gap vocabulary; both branches of an option give a callee the same kind of value; IndelMap slicing clamps the stop to its length before any arithmetic; map addition merges the seam run; integer indexing is right for -1; the index dispatch of Alignment.__getitem__ is exhaustive; the filtered() predicate is used by truth value; the construction helpers never modify the rows they are handed. That rows equal the string model is not decided.",
          "Trusts python ast, the numpy/container effect model, the allow-list (_named_seqs memo, _repr_policy), the curated history-state table."),
  "C20": ("dialect-table comparison of delimited writers against the csv reader, region/effect abstract interpretation (receiver purity) of the table operations, MRO resolution of self-calls on write paths",
-         "Static: the csv-module writer and the hand-rolled delimited writer both produce what csv.reader(dialect='excel') reads back (quoting set, quote doubling, header treated like rows, same suffix->separator table on both sides); none of 28 listed table operations mutates its receiver; every self.<name>() call on the write paths exists in the class; the delimited reader keeps every record and load_table drops rows only on request; equality-based operations apply no ordering primitive to cell data; derived attributes of Columns are re-stored whenever their sources change; file text is never evaluated; predicates are used by truth value, sorting is stable and descending order is by order inversion; natural-join keys come from one ordering. Relational semantics (sort/join/filter results) are not decided.",
+         "Static: the csv-module writer and the hand-rolled delimited writer both produce what csv.reader(dialect='excel') reads back (quoting set, quote doubling, header treated like rows, same suffix->separator table on both sides); none of 28 listed table operations mutates its receiver; every self.<name>() call on the write paths exists in the class; the delimited reader keeps every record and load_table drops rows only on request; equality-based operations apply no ordering primitive to cell data; derived attributes of Columns are re-stored whenever their sources change; file text is never evaluated; predicates are used by truth value, sorting is stable and descending order is by order inversion; natural-join keys come from one ordering; the cross join does not unpack a possibly empty zip. Relational semantics (sort/join/filter results) are not decided.",
          "Trusts python ast, the csv 'excel' dialect, the container effect model, allow-list: _repr_policy and the lazy index_name initialisation."),
 }
 
